@@ -746,6 +746,12 @@ def corpus_exc_descs():
                         shapes.append(("dict", pairs))
                     for sh in shapes:
                         out.append({"direct": "ABSENT", "headers": sh, "response": "absent"})
+    # ONE clean source: a plain mapping with the single entry <name in some letter case> -> decimal integer
+    # (where the property's text fixes the answer at the container level: `_plain_single_int`)
+    for k in ["Retry-After", "retry-after", "RETRY-AFTER", "Retry-after", "retry-After", "rEtRy-AfTeR"]:
+        for v in ["0", "7", "21", "86400"]:
+            out.append({"direct": "ABSENT", "headers": ("dict", [(k, v)]), "response": "absent"})
+            out.append({"direct": "ABSENT", "headers": ("M", [(k, v)], False, None, None), "response": "absent"})
     # faults
     for kind in ["TypeError", "ValueError", "IndexError", "OverflowError", "Exception"]:
         out.append({"headers": ("M", [("Retry-After", "5")], False, kind, None)})
@@ -1042,6 +1048,16 @@ class Runner:
                 else:
                     mm = f"model {a!r}, python {r!r}"
             if mm:
+                # Where the property's text fixes the answer also at the container level — ONE clean source: no
+                # direct attribute, no response object, a plain mapping with the single entry
+                # <"retry-after" in any letter case> -> <1-15 ASCII digits> ("any header container", "a decimal
+                # integer n gives n"; header names are case-insensitive) — a different answer is a violation.
+                n = self._plain_single_int(desc_d)
+                if n is not None and hint != float(n):
+                    self.add_failure("violation", f"C20/{kind}/plain-mapping-int",
+                                     f"{dd}: the only Retry-After supplied is the decimal integer {n} in a plain mapping; "
+                                     f"hint {hint!r}", replay + f"\npython: returned {r!r}", case)
+                    return
                 self.add_failure("divergence", f"C20/{kind}/{self._sig_branch(branch)}", f"{dd}: {mm}",
                                  replay + f"\npython: returned {r!r}", case)
                 return
@@ -1084,6 +1100,27 @@ class Runner:
             return True
         except ValueError:
             return False
+
+    @staticmethod
+    def _plain_single_int(d):
+        if d.get("direct", "ABSENT") != "ABSENT" or d.get("response", "absent") != "absent":
+            return None
+        h = d.get("headers")
+        if not isinstance(h, tuple) or not h:
+            return None
+        if h[0] == "dict":
+            pairs = list(h[1])
+        elif h[0] == "M" and h[3] is None and h[4] is None:
+            pairs = list(h[1])
+        else:
+            return None
+        if len(pairs) != 1:
+            return None
+        k, v = pairs[0]
+        if not (isinstance(k, str) and k.lower() == "retry-after" and isinstance(v, str)
+                and 1 <= len(v) <= 15 and v.isascii() and v.isdigit()):
+            return None
+        return int(v)
 
     @staticmethod
     def _coarse_parse(branch):
